@@ -352,6 +352,14 @@ func (q *MustPass) search(fn *ssa.Function, acc Accept, depth int, o searchOpts)
 			status := rDropped
 			notes := []string{}
 			for _, d := range s.pend {
+				// a remembered fact is about one dynamic instance of its SSA value: moving backwards out of
+				// the block that defines the value ends that instance (around a loop the same SSA name
+				// denotes the previous iteration's value, which may well have had the opposite outcome)
+				if ins, isIns := d.v.(ssa.Instruction); isIns && ins.Block() == b {
+					if _, isPhi := d.v.(*ssa.Phi); !isPhi {
+						continue
+					}
+				}
 				if phi, ok := d.v.(*ssa.Phi); ok && phi.Block() == b {
 					k, pp := q.resolve(fn, phi.Edges[i], d.want, depth)
 					if k == rPruned {
@@ -812,6 +820,18 @@ func forwardToAccept(q *MustPass, fn *ssa.Function, from *ssa.BasicBlock, walls 
 		iff, isIf := s.b.Instrs[len(s.b.Instrs)-1].(*ssa.If)
 		for i, n := range s.b.Succs {
 			facts := s.facts
+			// entering n starts new instances of the values defined there
+			if len(facts) > 0 {
+				var kept []demand
+				for _, d := range facts {
+					if ins, isIns := d.v.(ssa.Instruction); isIns && ins.Block() == n {
+						continue
+					}
+					kept = append(kept, d)
+				}
+				facts = kept
+			}
+			base := facts
 			if isIf && s.b.Succs[0] != s.b.Succs[1] {
 				want := True
 				if i == 1 {
@@ -821,7 +841,7 @@ func forwardToAccept(q *MustPass, fn *ssa.Function, from *ssa.BasicBlock, walls 
 				if k == rPruned {
 					continue
 				}
-				facts = dedupDemands(append(append([]demand(nil), s.facts...), pp...))
+				facts = dedupDemands(append(append([]demand(nil), base...), pp...))
 				if contradictory(facts) {
 					continue
 				}
